@@ -10,7 +10,7 @@ CHECKS = {
     "C04": {"pkg": "verifx/c01", "run": "TestC04", "harness": EXPORTS, "level": "exploration"},
     "C02": {"pkg": "verifx/c02", "run": "TestC02", "harness": EXPORTS, "level": "exploration"},
     "C03": {"pkg": "verifx/c03", "run": "TestC03", "harness": EXPORTS, "level": "exploration"},
-    "C05": {"pkg": "verifx/c05", "run": "TestC05", "harness": EXPORTS2, "level": "model_checking", "quick": {"budget_s": 420}, "thorough": {"budget_s": 3000}},
+    "C05": {"pkg": "verifx/c05", "run": "TestC05", "harness": EXPORTS2, "level": "model_checking", "quick": {"budget_s": 700}, "thorough": {"budget_s": 3000}},
     "C06": {"pkg": "verifx/c05", "run": "TestC06", "harness": EXPORTS2, "level": "model_checking", "quick": {"budget_s": 600}, "thorough": {"budget_s": 3000}},
     "C09": {"pkg": "verifx/c09", "run": "TestC09", "harness": EXPORTS2, "level": "model_checking", "quick": {"budget_s": 480}, "thorough": {"budget_s": 3000}},
     "C20": {"pkg": "verifx/c20", "run": "TestC20", "harness": ["client"], "level": "model_checking"},
